@@ -357,3 +357,50 @@ def netloc_template(ctx, rule):
                            "unsplit_netloc(%r, %r, %r, %r) gives %r, expected %r (RFC 3986 authority: [user[':'password]'@'] host [':'port], IPv6 literals bracketed)" % (u, p, host, port, got, exp), site,
                            witness="http://%s%s" % ((":pw@" if not u and p else ""), ("[::1]" if host != "H" else "a.com") + (":%d/" % port if port else "/")), sample="(%s,%s,%s,%s) -> %r" % (u, p, host, port, got))
     ctx.require_instances(rule, n, 32, "presence patterns")
+
+
+def normpath_table(ctx, rule, maxlen=4):
+    """normpath interpreted on every path of <= maxlen segments over {a, b, '.', '..', ''} against an
+    independent RFC 3986 5.2.4 reference (slashes squeezed first, trailing slash dropped as normpath documents)."""
+    import itertools
+    from ..microeval import run_function
+    ut = ctx.repo.mod("utils")
+    ref = ut.func("normpath")
+
+    def reference(path):
+        import re as _re
+        path = _re.sub(r"/{2,}", "/", path)
+        out = []
+        segs = path.split("/")
+        lead = segs[0] == "" and len(segs) > 1
+        for i, s in enumerate(segs):
+            if i == 0 and lead:
+                continue
+            if s == ".":
+                continue
+            if s == "..":
+                if out:
+                    out.pop()
+                continue
+            out.append(s)
+        res = ("/" if lead else "") + "/".join(out)
+        return res.rstrip("/")
+    n = 0
+    bad = None
+    for L in range(1, maxlen + 1):
+        for tup in itertools.product(("a", "b", ".", "..", ""), repeat=L):
+            p = "/" + "/".join(tup)
+            n += 1
+            try:
+                got = run_function(ctx.repo, ref, [p])
+            except Unknown as e:
+                ctx.undecided(rule, "normpath(%r): %s" % (p, e))
+                return
+            if got != reference(p):
+                bad = (p, got, reference(p))
+                break
+        if bad:
+            break
+    ctx.ob(rule, "normpath/table", bad is None, "normpath(%r) gives %r, the RFC 3986 dot-segment reference gives %r" % (bad or ("", "", "")), ut.site(ref.node), witness=bad and "http://a.com" + bad[0],
+           sample="%d absolute paths of <= %d segments over {a, b, ., .., empty}" % (n, maxlen))
+
